@@ -726,7 +726,7 @@ func GenOp(r *rand.Rand, w *World, cfg GenCfg, kind string) *Op {
 			og.op.Sel = append(og.op.Sel, og.rootNode())
 		}
 	}
-	if kind == "query" && !cfg.Off["roottypename"] && g.chance(0.1) {
+	if (kind == "query" || kind == "mutation") && !cfg.Off["roottypename"] && g.chance(0.1) {
 		og.op.Sel = append(og.op.Sel, &Sel{K: "F", Key: "__typename", Name: "__typename"})
 		og.tag["root-typename"] = true
 	}
